@@ -346,6 +346,88 @@ fn behaviour(ctx: &mut Ctx, rng: &mut Rng) {
 }
 
 /// Differential histories: initial_capacity must have no observable effect.
+/// "Configured capacity is honoured exactly as given", above u32::MAX: a cache of capacity c*f (+ r, r < f) whose
+/// weigher reports multiples of f behaves exactly like a cache of capacity c whose weigher reports the multiples
+/// themselves (every decision compares sums of weights with the capacity, and c is even so that the half-capacity
+/// threshold of the popularity table scales too). The same history runs on both; every lookup, the held keys, the
+/// entry count and weighted_size / f must agree. A capacity that is truncated, saturated or narrowed somewhere
+/// shows on the big side only; a defect of the eviction rules themselves shows on both sides alike and is not
+/// a C17 alarm.
+fn scaled_capacity(ctx: &mut Ctx, rng: &mut Rng, pairs: u64) {
+    for i in 0..pairs {
+        let kind = if rng.chance(1, 2) { Kind::Unsync } else { Kind::Sync };
+        let f = *rng.pick(&[1u64 << 30, 1 << 30, 1_000_000_007, 999_999_937, (1 << 30) + 12345]);
+        let c = *rng.pick(&[4u64, 6, 8, 8, 10, 12, 16]);
+        let r = *rng.pick(&[0u64, 0, 1]);
+        let hasher = HashMode::Mix(rng.below(99));
+        let small = Config { kind, cap: Some(c), weigher: true, ttl: None, tti: None, hasher: hasher.clone(), density: Density::Sparse, keys: 16, initial_capacity: None };
+        let mut big = small.clone();
+        big.cap = Some(c * f + r);
+        let nkeys = rng.range(4, 14) as u32;
+        let nops = rng.range(20, 90);
+        // ops: (kind, key, weight unit)
+        let mut ops: Vec<(u8, u32, u32)> = Vec::new();
+        for _ in 0..nops {
+            let k = rng.below(nkeys as u64) as u32;
+            let t = rng.below(100);
+            let op = if t < 40 { 0 } else if t < 80 { 1 } else if t < 92 { 2 } else if t < 97 { 3 } else { 4 };
+            let wmax = (u32::MAX as u64 / f).min(3);
+            ops.push((op, k, rng.below(wmax + 1) as u32));
+        }
+        let run = |cfg: &Config, scale: u64| -> Vec<String> {
+            obj_reset();
+            let mut cut = Cut::new(cfg);
+            let mut obs = Vec::new();
+            let mut vid = 0u64;
+            for &(op, k, w) in &ops {
+                let o = match op {
+                    0 => {
+                        vid += 1;
+                        cut.insert(k, vid, (w as u64 * scale) as u32);
+                        String::new()
+                    }
+                    1 => format!("{:?}", cut.get(k)),
+                    2 => {
+                        cut.sync();
+                        let (ec, ws) = cut.counters();
+                        let mut ks = cut.iter();
+                        ks.sort();
+                        format!("{} {} {} {:?}", ec, ws / scale, ws % scale, ks)
+                    }
+                    3 => {
+                        cut.invalidate(k);
+                        String::new()
+                    }
+                    _ => format!("{}", cut.contains(k)),
+                };
+                obs.push(o);
+            }
+            cut.sync();
+            let (ec, ws) = cut.counters();
+            let mut ks = cut.iter();
+            ks.sort();
+            obs.push(format!("{} {} {} {:?}", ec, ws / scale, ws % scale, ks));
+            obs
+        };
+        let a = run(&small, 1);
+        let b = run(&big, f);
+        ctx.report.evaluations += 1;
+        ctx.report.stats.inc("scaled_capacity_pairs");
+        ctx.report.distinct.entry("C17".into()).or_default().push(rng.next_u64());
+        if let Some(j) = (0..a.len()).find(|&j| a[j] != b[j]) {
+            let text: Vec<String> = ops.iter().take(j + 1).map(|(o, k, w)| format!("{} {} {}", ["insert", "get", "sync+observe", "invalidate", "contains_key"][*o as usize], k, w)).collect();
+            ctx.violate(
+                "config:capacity-above-u32-not-honoured",
+                format!("{:?} cache: max_capacity {} = {}*{}+{} with weights in units of {} vs max_capacity {} with unit weights: at step #{} the runs differ: `{}` vs `{}`", kind, c * f + r, c, f, r, f, c, j, b[j], a[j]),
+                &format!("{}\n# {}", big.to_line(), text.join("; ")),
+            );
+        }
+        if i == 0 && ctx.report.samples.len() < 6 {
+            ctx.report.samples.push(Json::Str(format!("scaled pair: {} vs cap {} | {} ops, final `{}`", big.to_line(), c, ops.len(), a[a.len() - 1])));
+        }
+    }
+}
+
 fn differential(ctx: &mut Ctx, rng: &mut Rng, pairs: u64) {
     for i in 0..pairs {
         let profile = *rng.pick(&[Profile::Admission, Profile::Lru, Profile::General, Profile::Capacity]);
@@ -630,6 +712,7 @@ fn main() {
             ctx.report.distinct.entry("C17".into()).or_default().push(2);
         }
         differential(&mut ctx, &mut rng, pairs);
+        scaled_capacity(&mut ctx, &mut rng, pairs / 4);
     }
     if out.is_empty() {
         println!("{}", report.to_json().dump());
